@@ -24,6 +24,9 @@ type c01Case struct {
 	RawBody       bool        `json:"raw_body,omitempty"`       // the caller supplies Headers.RawProtected (a non-canonical encoding of the same map)
 	OpaqueKeys    bool        `json:"opaque_keys,omitempty"`    // signers are built over opaque crypto.Signer wrappers (HSM / KMS style)
 	Reentrant     bool        `json:"reentrant,omitempty"`      // every key runs other library operations between being handed its bytes and reading them
+	// SharedMaps (constructed COSE_Sign): 1 - the body and signer 0 hold the SAME protected map object (one
+	// set of parameters for both layers); 2 - all signers hold one map object
+	SharedMaps int `json:"shared_maps,omitempty"`
 }
 
 // revChooser encodes maps in reverse entry order with minimal heads: a valid
@@ -278,6 +281,21 @@ func checkC01(c c01Case) error {
 		m.headers().RawProtected = rc.Encode(rc.Bytes(rc.Encode(spec.Prot, revChooser{})), nil)
 		stats.Class("caller-supplied-raw-protected")
 	}
+	if m.sm != nil && c.SharedMaps != 0 && !c.RawBody {
+		switch c.SharedMaps {
+		case 1:
+			if m.sm.Headers.Protected == nil {
+				m.sm.Headers.Protected = cose.ProtectedHeader{}
+			}
+			m.sm.Signatures[0].Headers.Protected = m.sm.Headers.Protected
+			stats.Class("layers-share-a-map/body-and-signer")
+		default:
+			for _, sg := range m.sm.Signatures[1:] {
+				sg.Headers.Protected = m.sm.Signatures[0].Headers.Protected
+			}
+			stats.Class("layers-share-a-map/all-signers")
+		}
+	}
 	if err := m.sign(ext, ss...); err != nil {
 		stats.Class("sign-refused/" + shortErr(err))
 		return nil
@@ -483,6 +501,9 @@ func TestC01_Random(t *testing.T) {
 		c.RawBody = rapid.IntRange(0, 4).Draw(rt, "raw-body") == 0
 		c.OpaqueKeys = rapid.IntRange(0, 4).Draw(rt, "opaque-keys") == 0
 		c.Reentrant = rapid.IntRange(0, 3).Draw(rt, "reentrant") == 0
+		if c.Spec.Kind == refcose.KSign {
+			c.SharedMaps = rapid.SampledFrom([]int{0, 0, 0, 1, 1, 2}).Draw(rt, "shared-maps")
+		}
 		if rapid.IntRange(0, 15).Draw(rt, "textual-alg") == 0 && len(c.Spec.Sigs) > 0 {
 			// alg given as the text name of the signer's algorithm (alg = int / tstr): the library may refuse
 			// to sign; if it signs, the message must verify like any other
